@@ -44,11 +44,15 @@ type Dg struct {
 type Ev struct {
 	// "remove": the peer ceases to exist — Via "uapi" (public_key=…, remove=true) or "selfkey" (private_key=<the peer's
 	// private key>: a device never has itself as a peer).  Handshakes attempted for it afterwards must fail.
-	Via  string `json:"via,omitempty"`
-	Kind string `json:"k"` // "hsu" (handshake without the confirming keepalive), "restart" (Down + Up), "hs", "age" (keypair creation moved Secs s + Ms ms into the past), "idle" (Ms ms of real time pass), "dg"
-	Peer int    `json:"peer,omitempty"`
-	Secs int    `json:"secs,omitempty"`
-	Ms   int    `json:"ms,omitempty"`
+	Via string `json:"via,omitempty"`
+	// "reconf": one UAPI set operation made of several peer sections; NewTable / Rm are its intended result
+	Sections []Section     `json:"sections,omitempty"`
+	NewTable []dpath.Entry `json:"new_table,omitempty"`
+	Rm       []int         `json:"rm,omitempty"`
+	Kind     string        `json:"k"` // "hsu" (handshake without the confirming keepalive), "restart" (Down + Up), "hs", "age" (keypair creation moved Secs s + Ms ms into the past), "idle" (Ms ms of real time pass), "dg"
+	Peer     int           `json:"peer,omitempty"`
+	Secs     int           `json:"secs,omitempty"`
+	Ms       int           `json:"ms,omitempty"`
 	// flood: Flood handshake initiations with valid MAC1 and no MAC2 while the device is under load (cookie replies)
 	Flood   int `json:"flood,omitempty"`
 	Cookies int `json:"cookies,omitempty"` // observed: cookie replies the device sent during the flood
@@ -181,6 +185,29 @@ func run(sc *Scenario) {
 			sessions = append(sessions, &sess{ev.Peer, s})
 			ev.Serial = len(sessions)
 			ev.DevIdx = s.RemoteIdx
+		case "reconf":
+			unknown := ref.PubOf(ref.NewPrivate())
+			text := renderSections(ev.Sections, func(who int) string {
+				switch {
+				case who == -1:
+					return fmt.Sprintf("%x", w.DevPub[:])
+				case who < 0:
+					return fmt.Sprintf("%x", unknown[:])
+				}
+				return fmt.Sprintf("%x", peers[who].Pub[:])
+			})
+			err, out := w.Set(text)
+			if err != nil || !out.Settled {
+				sc.Discarded = fmt.Sprintf("reconf %d: %v", ei, err)
+				poisoned = !out.Settled
+				return
+			}
+			for _, p := range ev.Rm {
+				gone[p] = true
+			}
+			for _, x := range out.Written {
+				ev.Writes = append(ev.Writes, x.Data)
+			}
 		case "remove":
 			p := peers[ev.Peer]
 			var cfg string
@@ -704,6 +731,23 @@ func (g *gen) cookiePhase(sc *Scenario) {
 	}
 }
 
+// effectiveTable: of several assignments of one prefix only the last counts
+func effectiveTable(t []dpath.Entry) []dpath.Entry {
+	var o []dpath.Entry
+	for i, e := range t {
+		shadowed := false
+		for _, f := range t[i+1:] {
+			if samePrefix(e, f) {
+				shadowed = true
+			}
+		}
+		if !shadowed {
+			o = append(o, e)
+		}
+	}
+	return o
+}
+
 func genScenario(r *rand.Rand, big bool, cookie bool) *Scenario {
 	sc := &Scenario{Gen: "random", NPeers: 1 + r.Intn(3)}
 	if r.Intn(3) == 0 {
@@ -734,6 +778,12 @@ func genScenario(r *rand.Rand, big bool, cookie bool) *Scenario {
 	}
 	removes := 0
 	g.gone = make([]bool, sc.NPeers)
+	cur := effectiveTable(sc.Table)
+	reconfs := 0
+	if r.Intn(3) == 0 {
+		reconfs = 1 + r.Intn(3)
+		n += 2 * reconfs
+	}
 	if sc.NPeers > 1 && r.Intn(4) == 0 {
 		removes = 1
 		n += 4
@@ -760,6 +810,21 @@ func genScenario(r *rand.Rand, big bool, cookie bool) *Scenario {
 			sc.Evs = append(sc.Evs, Ev{Kind: "dg", Dgs: []Dg{{Sess: pending.serial, IdxOf: pending.serial, Ctr: c, Plain: pl, Note: "late-confirmed-key-expired/" + note}}})
 			continue
 		}
+		if reconfs > 0 && r.Intn(5) == 0 {
+			reconfs--
+			secs := g.genReconf(cur, sc.NPeers > 1)
+			var rm []int
+			cur, rm = applySections(cur, g.gone, secs)
+			sc.Evs = append(sc.Evs, Ev{Kind: "reconf", Sections: secs, NewTable: append([]dpath.Entry{}, cur...), Rm: rm})
+			for _, p := range rm {
+				for _, s := range g.all {
+					if s.peer == p {
+						s.dead, s.unconf, s.tag = true, false, "removed-peer"
+					}
+				}
+			}
+			continue
+		}
 		if removes > 0 && r.Intn(8) == 0 {
 			removes--
 			var cand []int
@@ -771,6 +836,7 @@ func genScenario(r *rand.Rand, big bool, cookie bool) *Scenario {
 			if len(cand) > 1 {
 				p := cand[r.Intn(len(cand))]
 				g.gone[p] = true
+				cur, _ = applySections(cur, make([]bool, sc.NPeers), []Section{{Who: p, Remove: true}})
 				sc.Evs = append(sc.Evs, Ev{Kind: "remove", Peer: p, Via: []string{"uapi", "selfkey"}[r.Intn(2)]})
 				for _, s := range g.all {
 					if s.peer == p {
@@ -1001,6 +1067,32 @@ func directed() []*Scenario {
 		}
 		out = append(out, scr)
 	}
+	// configuration texts: placeholders before real sections, replace by the empty set, moves
+	e4 := func(a, b2, c, d byte, l, o int) dpath.Entry {
+		return dpath.Entry{Fam: 4, Bits: []byte{a, b2, c, d}, Len: l, Owner: o}
+	}
+	t3 := []dpath.Entry{e4(10, 1, 0, 0, 16, 0), e4(10, 2, 0, 0, 16, 1), e4(10, 3, 0, 0, 16, 2)}
+	from := func(s int, a, b2 byte, n int, c uint64) Dg {
+		return Dg{Sess: s, IdxOf: s, Ctr: c, Plain: ref.Pad(v4([4]byte{a, b2, 1, 1}, n))}
+	}
+	scc := &Scenario{Gen: "directed-config-text", NPeers: 3, BindBatch: 4, Table: t3}
+	secsA := []Section{{Who: -1, Extra: true, Replace: true, Adds: []dpath.Entry{e4(10, 9, 0, 0, 16, 0)}}, {Who: 0, Replace: true}, {Who: 1, Adds: []dpath.Entry{e4(10, 1, 0, 0, 16, 1)}}}
+	tA, _ := applySections(t3, make([]bool, 3), secsA)
+	secsB := []Section{{Who: -2, UpdateOnly: true, Adds: []dpath.Entry{e4(10, 8, 0, 0, 16, 0)}}, {Who: 2, Remove: true}, {Who: 1, Replace: true, Adds: []dpath.Entry{e4(10, 2, 7, 0, 24, 1)}}}
+	goneB := make([]bool, 3)
+	tB, rmB := applySections(tA, goneB, secsB)
+	scc.Evs = []Ev{{Kind: "hs", Peer: 0}, {Kind: "hs", Peer: 1}, {Kind: "hs", Peer: 2},
+		{Kind: "dg", Dgs: []Dg{from(1, 10, 1, 40, 1), from(2, 10, 2, 41, 1), from(3, 10, 3, 42, 1)}},
+		{Kind: "reconf", Sections: secsA, NewTable: tA},
+		{Kind: "dg", Dgs: []Dg{from(1, 10, 1, 43, 2), from(2, 10, 1, 44, 2), from(2, 10, 2, 45, 3), from(1, 10, 9, 46, 3), from(3, 10, 3, 47, 2)}},
+		{Kind: "reconf", Sections: secsB, NewTable: tB, Rm: rmB},
+		{Kind: "dg", Dgs: []Dg{from(3, 10, 3, 48, 3), from(2, 10, 2, 49, 4), {Sess: 2, IdxOf: 2, Ctr: 5, Plain: ref.Pad(v4([4]byte{10, 2, 7, 1}, 50))}, from(2, 10, 1, 51, 6), from(1, 10, 8, 52, 4)}},
+	}
+	for _, s := range scc.Evs[7].Dgs[:1] {
+		_ = s
+	}
+	scc.Evs[7].Dgs[0].Note = "removed-peer/old-session"
+	out = append(out, scc)
 	// tun.Write fails for one step: the packets are lost, nothing of them may appear with the next batch
 	pk2 := func(n int) []byte { return ref.Pad(v4([4]byte{10, 1, 1, 1}, n)) }
 	sct := &Scenario{Gen: "directed-tun-write-error", NPeers: 2, BindBatch: 4, Table: tbl}
@@ -1089,6 +1181,15 @@ func gallina(sc *Scenario) string {
 			b.WriteString("RRestart")
 		case "remove":
 			fmt.Fprintf(&b, "RRemove %d", ev.Peer)
+		case "reconf":
+			fmt.Fprintf(&b, "RReconf %s [", dpath.TableGallina(ev.NewTable))
+			for j, p := range ev.Rm {
+				if j > 0 {
+					b.WriteString(";")
+				}
+				fmt.Fprintf(&b, "%d", p)
+			}
+			b.WriteString("]")
 		case "age":
 			fmt.Fprintf(&b, "RAge %d %d", ev.Peer, ev.Secs*1000+ev.Ms)
 		case "idle": // every keypair of every peer grows older
